@@ -142,9 +142,10 @@ def run(tier, seed):
         def one(a):
             i, s = a
             env = san_env(os.path.join(wd, "cli%d.san" % i)); out = []
-            for flag, op in (("-a", "acc"), ("-r", "rej")):
-                p1 = subprocess.run([cli, flag], input=s["src"].encode(), stdout=subprocess.PIPE, stderr=subprocess.PIPE, env=env, timeout=30)
-                out.append((op, p1.stdout, p1.returncode))
+            for extra in ([], ["-c"]):          # accept / reject combine with the other options (here: compatibility mode)
+                for flag, op in (("-a", "acc"), ("-r", "rej")):
+                    p1 = subprocess.run([cli] + extra + [flag], input=s["src"].encode(), stdout=subprocess.PIPE, stderr=subprocess.PIPE, env=env, timeout=30)
+                    out.append((op + "".join(extra), p1.stdout, p1.returncode))
             return out
         with concurrent.futures.ThreadPoolExecutor(NCPU) as ex:
             couts = list(ex.map(one, list(enumerate(sel))))
@@ -155,9 +156,9 @@ def run(tier, seed):
         def plain(a):
             i, s, op = a
             env = san_env(os.path.join(wd, "clip%d.san" % i))
-            p = subprocess.run([cli], input=edited[(s["src"], op)].encode("latin-1"), stdout=subprocess.PIPE, stderr=subprocess.PIPE, env=env, timeout=30)
+            p = subprocess.run([cli] + (["-c"] if op.endswith("-c") else []), input=edited[(s["src"], op[:3])].encode("latin-1"), stdout=subprocess.PIPE, stderr=subprocess.PIPE, env=env, timeout=30)
             return p.stdout
-        jobs = [(i, s, op) for i, s in enumerate(sel) for op in ("acc", "rej")]
+        jobs = [(i, s, op) for i, s in enumerate(sel) for op in ("acc", "rej", "acc-c", "rej-c")]
         with concurrent.futures.ThreadPoolExecutor(NCPU) as ex:
             pouts = list(ex.map(plain, jobs))
         pi = 0
@@ -171,8 +172,8 @@ def run(tier, seed):
     finally:
         shutil.rmtree(wd, ignore_errors=True)
     acc2, rej2, st2, info2 = tlc.validate_trace("SessionTrace", os.path.join(VERIF, "spec", "SessionTrace.cfg"), ctrace, max_rejects=10)
-    chk.add("traces_validated_against_impl", len(sel) * 2 - len(rej2))
-    chk.cov["evaluations"] = len(cases) + 2 * len(sel)
+    chk.add("traces_validated_against_impl", len(sel) * 4 - len(rej2))
+    chk.cov["evaluations"] = len(cases) + 4 * len(sel)
     chk.cov["distinct_nontrivial"] = len(scripts)
     chk.cov["rule"] = ("scripts: TLC BFS of every script with <= 2 top-level items over text/comment/substitution leaves, additions/deletions/highlights of <= 1 leaf (thorough: <= 2 leaves, more texts), "
                        "doubly nested single marks, one unmatched marker; runs of 3..2500 unmatched opening markers followed by well-formed marks of the other families; TLC simulation of 1-5 items with nesting depth 3; cases = script x {accept, reject} x {whole, item-boundary sub-ranges}")
